@@ -1000,6 +1000,10 @@ class Engine:
 
     def havoc_object(self, ctx, ref, shape, name):
         """Havoc the contents of the object `ref` points to (identity kept)."""
+        if isinstance(ref, VOpt):
+            ref = ref.val
+        if ref is None:
+            return
         if not isinstance(ref, VRef):
             raise Unsupported(f"modifies {name}: not an object")
         h = ctx.heap[ref.addr]
@@ -1244,6 +1248,8 @@ class Engine:
         allowed_objs = set()       # addresses of objects that may change entirely
 
         def reach(v):
+            if isinstance(v, VOpt):
+                v = v.val
             if isinstance(v, VRef) and v.addr not in allowed_objs:
                 allowed_objs.add(v.addr)
                 h = old_heap.get(v.addr)
@@ -1271,6 +1277,7 @@ class Engine:
                 cur = ctx.ghost.get(parts[0])
             ok = True
             for p in parts[1:-1]:
+                cur = cur.val if isinstance(cur, VOpt) else cur
                 if isinstance(cur, VRef) and isinstance(old_heap.get(cur.addr), HObj):
                     cur = old_heap[cur.addr].fields.get(p)
                 elif isinstance(cur, VRec):
@@ -1278,6 +1285,7 @@ class Engine:
                 else:
                     ok = False
                     break
+            cur = cur.val if isinstance(cur, VOpt) else cur
             if ok and isinstance(cur, VRec) and len(parts) > 1:
                 # a field of an immutable record that refers to a mutable object
                 reach(cur.fields.get(parts[-1]))
